@@ -219,9 +219,9 @@ PROPS["C28"] = dict(
     level="exploration",
     technique="structural monitor on the written outline: an independent reader walks /First../Next and checks /Prev, /Parent, /Last, the /Count of every item and of the root against the visible-descendant rule with the closed-item sign convention, titles, and that every /Dest and every named destination (through the /Names tree, any depth) resolves to the authored page object",
     stages=[rust(id="DOC", args={"flavor": "c28"}), py("pyref.checks.c28")],
-    rule="outline forests (depth <=4, 0-4 children per item, random closed flags, 5 destination kinds on random pages) and 0-12 named destinations, on 1-6 page documents x 3 sampled configurations. Non-trivial: document has an outline or named destinations; distinct by file",
+    rule="outline forests (depth <=4, 0-4 children per item, random closed flags, 5 destination kinds on random pages) and 0-12 named destinations, on 1-6 page documents x 3 sampled configurations; half of the unencrypted cases are written a second time from the same Document after encryption was switched on (object numbers shift). Non-trivial: document has an outline or named destinations; distinct by file",
     assumptions=["titles are ASCII here (Unicode titles are C10's subject)"],
-    floors={"quick": {"evaluations": 600, "distinct": 400, "counters": {"outline_items_checked": 2000}}, "thorough": {"evaluations": 40000, "distinct": 25000}},
+    floors={"quick": {"evaluations": 600, "distinct": 400, "counters": {"outline_items_checked": 2000, "second_writes_after_a_change": 100}}, "thorough": {"evaluations": 40000, "distinct": 25000}},
     level_text="Sampled forests with an exact structural oracle.",
     level_note="Trusted base: pyref/pdf.py.",
 )
